@@ -49,20 +49,46 @@ Qed.
 
 (* ---------------------------------------------------------------- soundness on a simple path *)
 Lemma step_onf e x v : onf e = true -> onf (step e x v) = true.
-Proof. intros H. destruct x; simpl; try rewrite H; simpl; auto. Qed.
+Proof. intros H. destruct x; simpl; try rewrite H; simpl; auto; destruct (handle_ok e); simpl; auto. Qed.
+
+Lemma step_rule e x v : nrule (step e x v) = nrule e /\ wsname (step e x v) = wsname e.
+Proof. destruct x; simpl; auto; destruct (onf e && handle_ok e); simpl; auto. Qed.
+
+(* the name in memory never becomes the project's name, so every persistence call reaches the entity's own node *)
+Definition name_inv (e : ent) : Prop := nrule e = false \/ mem e NAME <> wsname e.
+
+Lemma name_inv_handle e : name_inv e -> handle_ok e = true.
+Proof.
+  unfold name_inv, handle_ok. intros [H|H]; [rewrite H; reflexivity|].
+  destruct (nrule e); [|reflexivity]. simpl. apply negb_true_iff. apply N.eqb_neq. exact H.
+Qed.
+
+Lemma name_inv_step e x v : name_inv e -> (nrule e = false \/ v <> wsname e) -> name_inv (step e x v).
+Proof.
+  intros Hi Hv. destruct (step_rule e x v) as [R W]. unfold name_inv. rewrite R, W.
+  destruct Hi as [Hi|Hi]; [left; exact Hi|]. destruct Hv as [Hv|Hv]; [left; exact Hv|]. right.
+  destruct x; simpl; try exact Hi.
+  - unfold upd. destruct (N.eqb NAME f); [exact Hv | exact Hi].
+  - destruct (onf e && handle_ok e); simpl; exact Hi.
+  - destruct (onf e && handle_ok e); simpl; exact Hi.
+Qed.
 
 Lemma sp_sound w p : forall k vals e,
-  sp_ok w p = true -> onf e = true ->
+  sp_ok w p = true -> onf e = true -> name_inv e -> (nrule e = false \/ forall j, vals j <> wsname e) ->
   (forall f, In f w -> mem e f <> sto e f -> existsb (persists f) p = true) ->
   in_sync w (run p k vals e).
 Proof.
-  induction p as [|x r IH]; intros k vals e Hok Hon Hd; simpl.
+  induction p as [|x r IH]; intros k vals e Hok Hon Hni Hv Hd; simpl.
   - intros f Hf. destruct (N.eq_dec (mem e f) (sto e f)) as [E|E]; [exact E|].
     specialize (Hd f Hf E). discriminate.
-  - apply IH.
+  - pose proof (name_inv_handle e Hni) as Hh.
+    destruct (step_rule e x (vals k)) as [R W].
+    apply IH.
     + destruct x; simpl in Hok; try exact Hok; try discriminate.
       apply andb_true_iff in Hok as [_ H]; exact H.
     + apply step_onf; exact Hon.
+    + apply name_inv_step; [exact Hni|]. destruct Hv as [Hv|Hv]; [left; exact Hv | right; apply Hv].
+    + rewrite R, W. exact Hv.
     + intros f Hf Hne. destruct x; simpl in *.
       * (* FStore f0 *)
         unfold upd in Hne. destruct (N.eqb f f0) eqn:E.
@@ -71,26 +97,28 @@ Proof.
            apply negb_true_iff in H1. apply memN_In in Hf. congruence.
         -- apply (Hd f Hf Hne).
       * (* FPersist *)
-        rewrite Hon in Hne. simpl in Hne. destruct (memN f fs) eqn:E; [congruence|].
+        rewrite Hon, Hh in Hne. simpl in Hne. destruct (memN f fs) eqn:E; [congruence|].
         specialize (Hd f Hf Hne). rewrite E in Hd. exact Hd.
       * (* FPersistAll *)
-        rewrite Hon in Hne. simpl in Hne. congruence.
+        rewrite Hon, Hh in Hne. simpl in Hne. congruence.
       * discriminate.
       * (* FPersistIf: a no-op *)
         apply (Hd f Hf Hne).
 Qed.
 
 Theorem write_through_sound w p q vals e :
-  fp_ok w p = true -> unroll p q -> onf e = true -> in_sync w e -> in_sync w (run q 0 vals e).
+  fp_ok w p = true -> unroll p q -> onf e = true -> name_safe e vals -> in_sync w e -> in_sync w (run q 0 vals e).
 Proof.
-  intros Hok Hu Hon Hs. apply sp_sound; [eapply fp_ok_unroll; eassumption | exact Hon|].
-  intros f Hf Hne. exfalso. apply Hne. apply Hs; exact Hf.
+  intros Hok Hu Hon Hn Hs. apply sp_sound; [eapply fp_ok_unroll; eassumption | exact Hon| | |].
+  - destruct Hn as [Hn|[Hn _]]; [left; exact Hn | right; exact Hn].
+  - destruct Hn as [Hn|[_ Hn]]; [left; exact Hn | right; exact Hn].
+  - intros f Hf Hne. exfalso. apply Hne. apply Hs; exact Hf.
 Qed.
 
 (* ---------------------------------------------------------------- the value that ends up in memory (and, in sync, in the file) *)
 Lemma step_mem e x v f :
   mem (step e x v) f = match x with FStore g => if N.eqb f g then v else mem e f | _ => mem e f end.
-Proof. destruct x; simpl; try reflexivity; destruct (onf e); reflexivity. Qed.
+Proof. destruct x; simpl; try reflexivity; destruct (onf e && handle_ok e); reflexivity. Qed.
 
 Lemma run_mem_last f p : forall k vals e,
   mem (run p k vals e) f = match last_store f p k with Some i => vals i | None => mem e f end.
@@ -101,11 +129,11 @@ Proof.
 Qed.
 
 Theorem assigned_value_is_stored w p q vals e f i :
-  fp_ok w p = true -> unroll p q -> onf e = true -> in_sync w e -> In f w -> last_store f q 0 = Some i ->
+  fp_ok w p = true -> unroll p q -> onf e = true -> name_safe e vals -> in_sync w e -> In f w -> last_store f q 0 = Some i ->
   mem (run q 0 vals e) f = vals i /\ sto (run q 0 vals e) f = vals i.
 Proof.
-  intros Hok Hu Hon Hs Hf Hl.
-  pose proof (write_through_sound _ _ _ vals _ Hok Hu Hon Hs f Hf) as E.
+  intros Hok Hu Hon Hn Hs Hf Hl.
+  pose proof (write_through_sound _ _ _ vals _ Hok Hu Hon Hn Hs f Hf) as E.
   pose proof (run_mem_last f q 0 vals e) as M. rewrite Hl in M. split; congruence.
 Qed.
 
@@ -115,7 +143,7 @@ Lemma no_persist_sto f p : forall k vals e,
 Proof.
   induction p as [|x r IH]; intros k vals e H; simpl in *; [reflexivity|].
   apply orb_false_iff in H as [H1 H2]. rewrite IH by exact H2.
-  destruct x; simpl in *; try reflexivity; destruct (onf e); simpl; try reflexivity.
+  destruct x; simpl in *; try reflexivity; destruct (onf e && handle_ok e); simpl; try reflexivity.
   - rewrite H1. reflexivity.
   - discriminate.
 Qed.
@@ -124,10 +152,10 @@ Qed.
 Theorem pair_sound T C q :
   pair_safe T C q = true ->
   forall p, In p (pair_paths T C false q) ->
-  forall u vals e, unroll p u -> onf e = true -> in_sync (pair_watch C q) e ->
+  forall u vals e, unroll p u -> onf e = true -> name_safe e vals -> in_sync (pair_watch C q) e ->
   in_sync (pair_watch C q) (run u 0 vals e).
 Proof.
-  intros Hs p Hp u vals e Hu Hon He. unfold pair_safe in Hs. rewrite forallb_forall in Hs.
+  intros Hs p Hp u vals e Hu Hon Hn He. unfold pair_safe in Hs. rewrite forallb_forall in Hs.
   eapply write_through_sound; eauto.
 Qed.
 
